@@ -283,6 +283,7 @@ pub struct Sim {
     pub time_cap: Option<u64>,
     pub stop_requested: bool,
     pub debug_timers: bool,
+    pub check_timer: bool,
     pub model_trace: bool,
     pub model_ops: Vec<String>,
     pub model_impl: Vec<String>,
@@ -377,6 +378,7 @@ impl Sim {
             time_cap: None,
             stop_requested: false,
             debug_timers: std::env::var("VERIF_SIM_TIMERDBG").is_ok(),
+            check_timer: true,
             model_trace: false,
             model_ops: Vec::new(),
             model_impl: Vec::new(),
@@ -856,6 +858,34 @@ impl Sim {
                 _ => {}
             }
             nc.app_events.push_back(e);
+        }
+        // C02 "no unarmed timer": at this quiescent point (everything serviced, poll_transmit returned None) an open
+        // connection with ack-eliciting data in flight in a space the PTO covers must have its loss-detection timer armed
+        if self.model_trace || self.check_timer {
+            let a = self.nodes[node].conns[&ch].conn.verif_snapshot();
+            let closed = !(a.state == "handshake" || a.state == "established");
+            let hs = a.state == "handshake";
+            let amp = !a.path.validated && a.path.total_recvd * 3 < a.path.total_sent + 1;
+            let ae = a.path.in_flight_ack_eliciting;
+            let peer = node == SERVER || closed || a.spaces[1].largest_acked.is_some() || a.spaces[2].largest_acked.is_some() || (a.spaces[2].has_keys && !a.spaces[1].has_keys);
+            let f = |s: &quinn_proto::verif::SpaceSnap| (s.sent_in_flight, s.time_of_last_ack_eliciting_packet.is_some());
+            let (s0, s1, s2) = (f(&a.spaces[0]), f(&a.spaces[1]), f(&a.spaces[2]));
+            let any_loss_time = a.spaces.iter().any(|s| s.loss_time.is_some());
+            let covered = (s0.0 && s0.1) || (s1.0 && s1.1) || (!hs && s2.0 && s2.1);
+            let required = !closed && !any_loss_time && !amp && ((ae > 0 && covered) || (ae == 0 && !peer));
+            // a pending Pacing timer means poll_transmit will be retried and the loss timer set by that transmission
+            let armed = a.timers[0].is_some() || a.timers[6].is_some();
+            if required && !armed {
+                self.fail("unarmed-timer", format!("node {node} conn {ch}: state {} in_flight ack-eliciting {ae} (spaces in flight {:?}) peer validated {peer} but no loss-detection timer", a.state, (s0, s1, s2)));
+            }
+            if self.model_trace && !any_loss_time && !closed && self.model_ops.len() < 400_000 && (ae > 0 || !peer) {
+                self.model_ops.push(format!(
+                    "lossd {} {} {} {ae} {} {} {} {} {} {} {}",
+                    closed as u8, hs as u8, amp as u8, peer as u8, s0.0 as u8, s0.1 as u8, s1.0 as u8, s1.1 as u8, s2.0 as u8, s2.1 as u8
+                ));
+                // what the harness derived from the snapshot; the model must derive the same requirement
+                self.model_impl.push(((((ae > 0 && covered) || (ae == 0 && !peer)) && !amp) as u8).to_string());
+            }
         }
     }
 
